@@ -748,6 +748,12 @@ pub fn equals(val_a: &Val, val_b: &Val) -> Result<bool> {
 	if val_a.value_type() != val_b.value_type() {
 		return Ok(false);
 	}
+	// Containers may be cyclic (`local a = [a]`), recursion should be bounded
+	let _guard = if matches!(val_a, Val::Arr(_) | Val::Obj(_)) {
+		Some(crate::stack::check_depth()?)
+	} else {
+		None
+	};
 	match (val_a, val_b) {
 		(Val::Arr(a), Val::Arr(b)) => {
 			if ArrValue::ptr_eq(a, b) {
